@@ -71,12 +71,25 @@ func chainFor(node *kernel.Node, nw *network, q Query) (*kernel.Chain, *kernel.C
 
 func coqPledging(nw *network, recs []Rec, info *kernel.CNode) string {
 	if info == nil {
-		return vh.None("nrec")
+		return "None"
 	}
 	return vh.Some(coqCNode(nw, recs, info))
 }
 
 // oracle on one (keys, threshold) observation.
+// failKnown records the recorded finding at most three times per run (the
+// failure list of the report is bounded; a different failure must never be
+// crowded out) and counts every further hit in the distribution.
+var knownHits int
+
+func failKnown(c *vh.Ctx, what string, cs Case) {
+	knownHits++
+	c.Count("oracle:recorded-finding-round0")
+	if knownHits <= 3 {
+		c.Fail(sigRound0, what, cs)
+	}
+}
+
 func oracleQuery(c *vh.Ctx, cs Case, q Query, n, n1, t int, pledging bool) {
 	one := cs
 	one.Qs = []Query{q}
@@ -113,7 +126,7 @@ func oracleQuery(c *vh.Ctx, cs Case, q Query, n, n1, t int, pledging bool) {
 	m := n - 1
 	mi := 2*t - m
 	if pledging && q.Round == 0 && n == n1+1 && 3*mi > m {
-		c.Fail(sigRound0, what, one)
+		failKnown(c, what, one)
 		return
 	}
 	c.Fail("quorum-intersection-at-most-third", what, one)
@@ -137,12 +150,12 @@ func runQuorum(c *vh.Ctx, cs Case) {
 		}
 		rem := node.VerifC10RemovingOrSlashingNodeAt(q.Ts)
 		pred := node.VerifC10UsePredictive(q.Ts)
-		remS := vh.None("N")
+		remS := "None"
 		if rem != nil {
 			remS = vh.Some(coqId(nw, rem.IdForNetwork))
 		}
-		qt = append(qt, vh.App("Q", zts(q.Ts), coqPledging(nw, cs.Recs, info), vh.ZU(q.Round),
-			vh.ZI(int64(tf)), vh.ZI(int64(tn)), coqIds(nw, ids), remS, vh.Bool(pred)))
+		qt = append(qt, vh.App("Q", zts(q.Ts), coqPledging(nw, cs.Recs, info), fmt.Sprint(q.Round),
+			fmt.Sprint(tf), fmt.Sprint(tn), coqIdCode(nw, ids), remS, vh.Bool(pred)))
 		oracleQuery(c, cs, q, len(ids), len(ids1), tf, info != nil)
 		if tf != 1000 {
 			nontrivial = true
@@ -150,7 +163,7 @@ func runQuorum(c *vh.Ctx, cs Case) {
 		keyParts = append(keyParts, fmt.Sprintf("%d/%d/%d/%v/%v", len(ids), tf, tn, rem != nil, info != nil && q.Round == 0))
 	}
 	sort.Strings(keyParts)
-	term := vh.App("CQuorum", zts(cs.Epoch), vh.Bool(cs.Mainnet), coqGenesis(nw, cs.Recs), coqRecs(nw, cs.Recs), vh.List(qt, "query"))
+	term := vh.App("CQuorum", zts(cs.Epoch), vh.Bool(cs.Mainnet), coqGenesis(nw, cs.Recs), coqRecs(nw, cs.Recs), lst(qt))
 	c.Case("quorum:"+cs.Name, fmt.Sprintf("%v|%s", cs.Mainnet, strings.Join(keyParts, ",")), nontrivial, cs, term)
 }
 
@@ -228,10 +241,10 @@ func runCerts(c *vh.Ctx, cs Case) {
 		_, ok := chain.VerifC10VerifyFinalization(snap)
 		pos := make([]string, len(q.Pos))
 		for i, p := range q.Pos {
-			pos[i] = vh.Nat(p)
+			pos[i] = fmt.Sprint(p)
 		}
-		ct = append(ct, vh.App("Cert", zts(q.Ts), coqPledging(nw, cs.Recs, info), vh.ZU(q.Round),
-			coqIds(nw, sids), vh.List(pos, "nat"), vh.Bool(ok)))
+		ct = append(ct, vh.App("Cert", zts(q.Ts), coqPledging(nw, cs.Recs, info), fmt.Sprint(q.Round),
+			coqIds(nw, sids), lst(pos), vh.Bool(ok)))
 		if ok {
 			nontrivial = true
 			// oracle: an accepted certificate of k signers over the n keys it was
@@ -252,7 +265,7 @@ func runCerts(c *vh.Ctx, cs Case) {
 				what := fmt.Sprintf("verifyFinalization accepted %d signers over %d keys at ts=%d round=%d: a second such certificate can share only %d keys", k, n, q.Ts, q.Round, mi)
 				m := n - 1
 				if info != nil && q.Round == 0 && len(vids) == len(vids1)+1 && 3*(2*k-m) > m {
-					c.Fail(sigRound0, what, one)
+					failKnown(c, what, one)
 				} else {
 					c.Fail("certificate-accepted-below-two-thirds", what, one)
 				}
@@ -262,7 +275,7 @@ func runCerts(c *vh.Ctx, cs Case) {
 			}
 		}
 	}
-	term := vh.App("CCerts", zts(cs.Epoch), vh.Bool(cs.Mainnet), coqGenesis(nw, cs.Recs), coqRecs(nw, cs.Recs), vh.List(ct, "cert"))
+	term := vh.App("CCerts", zts(cs.Epoch), vh.Bool(cs.Mainnet), coqGenesis(nw, cs.Recs), coqRecs(nw, cs.Recs), lst(ct))
 	c.Case("certs:"+cs.Name, fmt.Sprintf("certs|%s|%d|%d", cs.Name, len(cs.Recs), len(ct)), nontrivial, cs, term)
 }
 
@@ -270,7 +283,7 @@ func runMask(c *vh.Ctx, cs Case) {
 	sig := &crypto.CosiSignature{Mask: cs.Mask}
 	got := sig.ThresholdVerify(cs.Thr)
 	c.Case("mask", fmt.Sprintf("mask|%d|%d", bits.OnesCount64(cs.Mask), cs.Thr), true, cs,
-		vh.App("CMask", vh.NU(cs.Mask), vh.ZI(int64(cs.Thr)), vh.Bool(got)))
+		vh.App("CMask", zts(cs.Mask), fmt.Sprint(cs.Thr), vh.Bool(got)))
 	if got && cs.Thr > 64 {
 		c.Fail("mask-meets-impossible-threshold", "a 64-bit mask met a threshold above 64", cs)
 	}
